@@ -21,6 +21,8 @@ type scriptWatcher struct {
 	ch      chan nats.KeyValueEntry
 	mu      sync.Mutex
 	stopped bool
+	stopErr error // what Stop returns (an unsubscribe on a closed connection fails)
+	noClose bool  // Stop fails without closing the channel (nothing more will arrive either)
 }
 
 func (w *scriptWatcher) Context() context.Context           { return context.Background() }
@@ -31,9 +33,11 @@ func (w *scriptWatcher) Stop() error {
 	defer w.mu.Unlock()
 	if !w.stopped {
 		w.stopped = true
-		close(w.ch)
+		if !w.noClose {
+			close(w.ch)
+		}
 	}
-	return nil
+	return w.stopErr
 }
 
 type scriptKV struct {
@@ -69,12 +73,29 @@ func (k *scriptKV) Watch(keys string, opts ...nats.WatchOpt) (nats.KeyWatcher, e
 	return k.w, nil
 }
 
+// adapterGoroutines counts goroutines of the CURRENT bubble that have a watcher-adapter frame
+// (goroutines leaked by earlier runs of this process live in other bubbles).
 func adapterGoroutines() int {
-	buf := make([]byte, 1<<20)
+	buf := make([]byte, 4<<20)
 	n := runtime.Stack(buf, true)
+	gs := strings.Split(string(buf[:n]), "\n\n")
+	bubble := ""
+	if i := strings.Index(gs[0], "synctest bubble "); i >= 0 {
+		rest := gs[0][i:]
+		if j := strings.IndexAny(rest, "]:,"); j > 0 {
+			bubble = rest[:j]
+		}
+	}
 	c := 0
-	for _, g := range strings.Split(string(buf[:n]), "\n\n") {
-		if strings.Contains(g, "natsWatcherAdapter") && strings.Contains(g, "synctest bubble") {
+	for _, g := range gs[1:] {
+		hdr := g
+		if i := strings.IndexByte(g, '\n'); i > 0 {
+			hdr = g[:i]
+		}
+		if bubble == "" || !(strings.Contains(hdr, bubble+"]") || strings.Contains(hdr, bubble+",")) {
+			continue
+		}
+		if strings.Contains(g, "natsWatcherAdapter") {
 			c++
 		}
 	}
@@ -240,6 +261,36 @@ func RunC14(t *testing.T, seed uint64) *Result {
 			if n := adapterGoroutines(); n != 0 {
 				bad("adapter-goroutines-left-after-stop", fmt.Sprintf("%d goroutines with watcher-adapter frames after Stop()", n))
 				// let them go so that the bubble can end
+			}
+
+			// ---- a consumer that stops reading, notifications still pending, then Stop - possibly
+			// failing underneath (connection already closed): no goroutine may stay behind
+			{
+				src2 := &scriptWatcher{ch: make(chan nats.KeyValueEntry, 256)}
+				if r.Bool(0.5) {
+					src2.stopErr = Pick(r, []error{nats.ErrConnectionClosed, nats.ErrBadSubscription})
+					src2.noClose = r.Bool(0.5)
+				}
+				ad2 := leader.VerifNewWatcher(src2)
+				ch2 := ad2.Updates()
+				pending := r.Intn(5)
+				for i := 0; i < pending; i++ {
+					src2.ch <- &stubEntry{bucket: "b", v: &Version{Key: "k", Seq: uint64(i + 1), Op: opPut, Val: []byte("x")}}
+				}
+				if pending > 0 && r.Bool(0.5) {
+					<-ch2 // read one, leave the rest
+				}
+				synctest.Wait()
+				ad2.Stop()
+				time.Sleep(time.Second)
+				synctest.Wait()
+				judged++
+				if n := adapterGoroutines(); n != 0 {
+					bad(fmt.Sprintf("adapter-goroutines-left-after-stop/pending=%v/stop-error=%v", pending >= 2, src2.stopErr != nil), fmt.Sprintf("%d forwarding goroutine(s) alive after Stop() with %d unread notifications (underlying Stop returned %v)", n, pending, src2.stopErr))
+					if src2.noClose {
+						close(src2.ch) // let it go so that the bubble can end
+					}
+				}
 			}
 
 			// ---- KeyValue adapter pass-through
